@@ -630,6 +630,9 @@ end Mpmc
 inductive AnySt where
   | mpsc (st : St)
   | mpmc (st : Mpmc.St2)
+  /-- the rest of the case is not replayed: it calls a form the step-level chain models do not have (the timed
+  receive `recv_timeout`, whose `park_timeout` the scheduler can end by firing the timeout) -/
+  | skipped (why : String)
 
 def initAny (ws : List String) : Except String AnySt :=
   match kv ws "flavour" with
@@ -639,7 +642,12 @@ def initAny (ws : List String) : Except String AnySt :=
   | none => .error "missing flavour"
 
 def stepAny (st : AnySt) (op res : List String) : Except String (AnySt × List String) :=
+  match st, op with
+  | .skipped _, _ => .ok (st, [])
+  | _, "C" :: _ :: "recv_timeout" :: _ => .ok (.skipped "recv_timeout", ["skip:recv_timeout"])
+  | _, _ =>
   match st with
+  | .skipped _ => .ok (st, [])
   | .mpsc s => (step s op res).map (fun p => (AnySt.mpsc p.1, p.2))
   | .mpmc s => (Mpmc.step s op res).map (fun p => (AnySt.mpmc p.1, p.2))
 
@@ -647,6 +655,7 @@ def finishAny (st : AnySt) : Except String (List String) :=
   match st with
   | .mpsc s => finish s
   | .mpmc s => Mpmc.finish s
+  | .skipped why => .ok [s!"skipped:{why}"]
 
 def engineAny : Engine AnySt := { init := initAny, step := stepAny, finish := finishAny }
 
